@@ -135,7 +135,7 @@ func VpHValidate() {
 		isBanned = ns == banned
 	}
 	shouldReject := vpOr(vpOr(len(key) == 0, reserved), vpOr(vpOr(tooLong, valTooBig), isBanned))
-	vpAssert((err != nil) == shouldReject, "C28:validate.rejected-iff-invalid")
+	vpAssert((err != nil) == shouldReject, "C28,C37:validate.rejected-iff-invalid")
 	if err != nil {
 		vpCover("validate.rejected")
 		vpAssert(txn.size == size0 && txn.count == count0 && len(txn.pendingWrites) == pend0, "C28:validate.rejected-write-leaves-txn-untouched")
